@@ -80,6 +80,13 @@ func (raceStream) Generate(rng *rand.Rand, tier string, emit func(Case)) {
 	for _, ops := range [][]string{{"ListDevices", "GetDevice"}, {"InjectDevices", "ListVendors", "GetErrors"}, {"ListDevices", "ListDevices", "GetVendorSpecs", "ListClasses"}} {
 		emit(Case{"op": "race", "ops": strs2any(ops), "iters": iters, "auto": true, "missingdir": true, "seed": rng.Int63()})
 	}
+	// Spec files of the scanned directory are written and removed all the time while it is rescanned and listed: a
+	// file that vanishes between the listing and the reading must not take anything else with it (the removed files
+	// sort before the one that flips, so whatever is skipped after them shows)
+	for _, auto := range []bool{false, true} {
+		emit(Case{"op": "race", "ops": strs2any([]string{"Refresh", "RemoveSpec", "WriteSpec", "RemoveSpec", "WriteSpec", "ListDevices", "GetVendorSpecs"}),
+			"iters": 4 * iters, "auto": auto, "seed": rng.Int63()})
+	}
 	// everything at once
 	n := 2
 	if tier == "thorough" {
